@@ -589,6 +589,9 @@ def explore_config(part, config, how, seed, reported):
         part.hist('popen_calls_hist', '%s|%s:%d' % ('with-close' if any('X' in x for x in config['scripts']) else 'no-close', config['variant'], len(w.launch_log)))
         part.hist('servers_started_per_run', len(w.servers))
         part.hist('steps_per_run(bucket of 20)', s.steps // 20 * 20)
+        for t in s.threads:
+            if t.kind == 'starter':
+                part.hist('daemon_flag_of_starter_threads(controlled runs, observation)', 'daemon' if t.data.get('daemon') else 'non-daemon')
         if s.instr:
             part.count('instruction_level_schedules')
             part.count('instruction_level_preemptions(mid-line)', s.midline_preemptions)
@@ -972,6 +975,132 @@ def real_exe_exits(part, rep):
         _kill(getattr(env, 'proc', None))
 
 
+CLIENT_EXIT = r"""
+import os, sys, time, threading, subprocess
+OUT, MODE, HOW = sys.argv[1], sys.argv[2], sys.argv[3]
+
+
+def note(text):
+    with open(OUT, 'a') as f:
+        f.write(text + '\n')
+
+
+class Popen(subprocess.Popen):          # observation only: pid of every process the client launches
+    def __init__(self, *a, **k):
+        super().__init__(*a, **k)
+        note('S %d' % self.pid)
+
+
+subprocess.Popen = Popen
+import supp.remote as remote
+
+
+class Thread(remote.Thread):            # observation only: daemon flag of threads remote.py starts
+    def start(self):
+        note('T %d' % bool(self.daemon))
+        super().start()
+
+
+remote.Thread = Thread
+old_hook = threading.excepthook
+
+
+def hook(args):
+    note('E %s %s' % (args.exc_type.__name__, str(args.exc_value).replace('\n', ' ')[:200]))
+
+
+threading.excepthook = hook
+env = remote.Environment()
+env.prepare()
+if MODE == 'launched':
+    t0 = time.time()
+    while not hasattr(env, 'proc') and time.time() - t0 < 20:
+        time.sleep(0.001)
+elif MODE == 'listening':
+    t0 = time.time()
+    while not hasattr(env, 'proc') and time.time() - t0 < 20:
+        time.sleep(0.001)
+    addr = env.proc.args[2]
+    while not os.path.exists(addr) and time.time() - t0 < 20:
+        time.sleep(0.001)
+elif MODE == 'after-call':
+    assert env.eval('return 6 * 7') == 42
+elif MODE == 'after-call-close':
+    assert env.eval('return 6 * 7') == 42
+    env.close()
+elif MODE == 'close-at-once':
+    env.close()
+else:
+    assert MODE == 'immediate'
+note('M main thread done')
+if HOW == 'sys-exit':
+    sys.exit(0)
+"""
+
+
+def real_client_exit(part, rep, mode):
+    """a real client process calls prepare() and ENDS NORMALLY (end of script / sys.exit) at a chosen
+    point, without or with close(): every server it launched has to end once the client is gone"""
+    import multiprocessing.process as mpp
+    tmp = mpp.current_process()._config['tempdir']
+    out = os.path.join(tmp, 'client-exit-%s-%d.txt' % (mode, rep))
+    how = 'sys-exit' if rep % 2 else 'end-of-script'
+    # the launched server inherits the client's stdio: nothing of it may be a pipe we wait on
+    client = subprocess.Popen([core.PY, '-B', '-c', CLIENT_EXIT, out, mode, how], stdin=subprocess.DEVNULL,
+                              stdout=subprocess.DEVNULL, stderr=subprocess.DEVNULL,
+                              env=core.child_env({'TMPDIR': tmp}))
+    pids = []
+    try:
+        try:
+            client.wait(90)
+        except subprocess.TimeoutExpired:
+            part.inconclusive.append('real client-exit scenario %s: client process did not end within 90 s' % mode)
+            return
+        lines = []
+        if os.path.exists(out):
+            with open(out) as f:
+                lines = f.read().splitlines()
+        pids = [int(l.split()[1]) for l in lines if l.startswith('S ')]
+        flags = [l.split()[1] for l in lines if l.startswith('T ')]
+        errors = [l[2:] for l in lines if l.startswith('E ')]
+        for fl in flags:
+            part.hist('daemon_flag_of_threads_started_by_remote.py(real client, observation)', 'daemon' if fl == '1' else 'non-daemon')
+        if client.returncode != 0 or 'M main thread done' not in lines:
+            part.inconclusive.append('real client-exit scenario %s: client script failed (status %r, notes %r)' % (
+                mode, client.returncode, lines[-3:]))
+            return
+        part.count('real_client_processes_ended_normally')
+        part.hist('real_client_exit_points', '%s/%s' % (mode, how))
+        if any('launching timeout' in e for e in errors):
+            # the server needed more than supp's own 5 s to listen (machine load): the starter gave
+            # up, nobody will ever connect - no verdict on a wall-clock effect
+            part.count('real_client_exit_runs_with_launch_timeout(not judged)')
+            return
+        if not pids:
+            part.count('real_client_exit_runs_without_a_launched_server')
+            return
+        part.count('real_disconnects')
+        for pid in pids:
+            if not _wait_pid_gone(pid):
+                part.violation('child-alive-after-disconnect:client-exited-%s' % mode,
+                               'real run: server %d still running %.0f s after its client process (prepare(), exit point "%s", %s, '
+                               'starter threads daemon=%s) ended normally' % (pid, EXIT_WATCHDOG, mode, how, flags),
+                               {'monitor': 'b', 'scenario': 'client-exit-' + mode, 'notes': lines})
+                return
+        part.count('real_child_exited_after_disconnect')
+        part.count('real_servers_gone_after_client_process_end', len(pids))
+    finally:
+        _kill(client)
+        for pid in pids:
+            if _pid_alive(pid):
+                try:
+                    os.kill(pid, signal.SIGKILL)
+                except Exception:
+                    pass
+
+
+CLIENT_EXIT_MODES = ('launched', 'listening', 'immediate', 'after-call', 'after-call-close', 'close-at-once')
+
 REAL = {
     'close': real_close,
     'drop-conn': real_drop_conn,
@@ -980,6 +1109,8 @@ REAL = {
     'bad-exe': real_bad_exe,
     'exe-exits': real_exe_exits,
 }
+for _m in CLIENT_EXIT_MODES:
+    REAL['client-exit-' + _m] = (lambda m: lambda p, r: real_client_exit(p, r, m))(_m)
 
 
 def work_real(arg):
@@ -1225,6 +1356,10 @@ def main(run):
     for name in ('exe-exits', 'close', 'drop-conn', 'holder-kill', 'holder-exit', 'bad-exe'):
         for r in range(reps):
             args.append({'kind': 'real', 'scenario': name, 'rep': run.seed * 7 + r})
+    for m in CLIENT_EXIT_MODES:
+        # the two start-up exit points race with the starter's 0.3 s retry rhythm: repeat them
+        for r in range(run.pick(3, 8) if m in ('launched', 'listening') else run.pick(1, 3)):
+            args.append({'kind': 'real', 'scenario': 'client-exit-' + m, 'rep': run.seed * 7 + r})
     nconf = len(bounded)
     for w, j in jobs:
         nconf += sum(1 for c, h in j if 'root' not in h)
@@ -1275,6 +1410,7 @@ def main(run):
              'interleavings (hash of the visible-step sequence) were executed, or a real scenario; distinct by configuration + exploration kind',
         require=('schedules', 'distinct_interleavings', 'calls_answered_own_reply', 'real_runs_judged', 'real_calls_answered',
                  'schedules_random_full', 'real_disconnects', 'real_launch_failures_surfaced',
+                 'real_client_processes_ended_normally', 'real_servers_gone_after_client_process_end',
                  'instruction_level_schedules', 'instruction_level_preemptions(mid-line)', 'schedules_sleep_instr',
                  'schedules_random_instr-full'),
         assumptions=[
